@@ -900,7 +900,8 @@ def make_response(data: Optional[Union[str, bytes, dict, Iterable[bytes]]],
             return Response(data, content_type, headers, status_code)
         if isinstance(data, dict):
             return JSONResponse(data, headers=headers, status_code=status_code)
-        if isinstance(data, list) and not isinstance(data[0], bytes):
+        if isinstance(data, list) and \
+                not (data and isinstance(data[0], bytes)):
             return JSONResponse(data, headers=headers, status_code=status_code)
         if data is None:
             if status_code == HTTP_OK:
